@@ -237,16 +237,58 @@ def wgsCheck (a : SR Float) (adef : String) : Option String :=
   if adef == "+proj=longlat~+datum=WGS84" then
     let w : SR Float := wgs84SR
     if w.a == a.a && w.b == a.b && w.es == a.es && w.e == a.e && w.ep2 == a.ep2 && w.datum.dtype == a.datum.dtype
-        && w.datum.a == a.datum.a && w.datum.b == a.datum.b && w.datum.es == a.datum.es && a.codeWGS84
+        && w.datum.a == a.datum.a && w.datum.b == a.datum.b && w.datum.es == a.datum.es && a.datumCode == "WGS84"
         && a.axis == enu && a.toMeter == 1.0 && a.fromGreenwich.isNaN
     then none else some "WGS84-constants-differ"
   else none
+
+/-- the fields the model reads agree bit for bit (NaN = NaN), except the datum code, which must be equal or
+fold to WGS84 on both sides; `toMeter` of a longlat reference is never read by `transform3`; the datum
+parameters only under the datum types that read them -/
+def srSameButCode (x y : SR Float) : Bool :=
+  let f (u v : Float) : Bool := u.toBits == v.toBits
+  x.name == y.name && f x.lat0 y.lat0 && f x.lat1 y.lat1 && f x.lat2 y.lat2 && f x.latTS y.latTS && f x.long0 y.long0
+  && f x.x0 y.x0 && f x.y0 y.y0 && f x.k0 y.k0 && f x.k y.k && f x.a y.a && f x.b y.b && f x.rf y.rf && f x.es y.es
+  && f x.e y.e && f x.ep2 y.ep2 && f x.zone y.zone && (x.name == .longlat || f x.toMeter y.toMeter)
+  && f x.fromGreenwich y.fromGreenwich && x.sphere == y.sphere && x.ra == y.ra && x.utmSouth == y.utmSouth
+  && x.czech == y.czech && x.axis == y.axis
+  && (x.datumCode == y.datumCode || (goEqualFold x.datumCode "WGS84" && goEqualFold y.datumCode "WGS84"))
+  && x.datum.dtype == y.datum.dtype && f x.datum.a y.datum.a && f x.datum.b y.datum.b && f x.datum.es y.datum.es
+  && f x.datum.ep2 y.datum.ep2
+  && (!(x.datum.dtype == pjd3Param || x.datum.dtype == pjd7Param)
+      || (f x.datum.p0 y.datum.p0 && f x.datum.p1 y.datum.p1 && f x.datum.p2 y.datum.p2))
+  && (!(x.datum.dtype == pjd7Param)
+      || (f x.datum.p3 y.datum.p3 && f x.datum.p4 y.datum.p4 && f x.datum.p5 y.datum.p5 && f x.datum.p6 y.datum.p6))
+
+/-- `tw` lines: `W A <dump> B <dump> K <k> <first>` — the twin pair (lower-case `wgs84` side written as
+`+datum=WGS84`).  When the twin records are the same but for the case of the datum code, the model's
+route decision is the same for both pairs (`goEqualFold`), so the code's answers must be bit-identical:
+Returns the class PREFIX (`twin-` compared, `notwin-` records differ: not compared) and the differences. -/
+def judgeTwin (a b : SR Float) (rhs : Tok) : String × List String :=
+  match rhs.dropWhile (· ≠ "W") with
+  | "W" :: "A" :: r =>
+    match parseSR r with
+    | some (a2, "B" :: r) =>
+      match parseSR r with
+      | some (b2, "K" :: k :: first) =>
+        if srSameButCode a a2 && srSameButCode b b2 then
+          ("twin-", if k == "0" then [] else
+            [s!"route-differs-from-twin {k} positions answered differently (bit patterns) by the pair with datum codes ({a.datumCode},{b.datumCode}) and by its twin ({a2.datumCode},{b2.datumCode}); first {" ".intercalate first}"])
+        else ("notwin-", [])
+      | _ => ("notwin-", ["BAD twin-dump-B"])
+    | _ => ("notwin-", ["BAD twin-dump-A"])
+  | "W" :: "twinerr" :: r => ("notwin-", [s!"twin-definition-rejected {" ".intercalate r}"])
+  | _ => ("", [])
 
 def judgeLine (line : String) : String :=
   let (lhs, rhs) := splitArrow (tokens line)
   match lhs with
   | "cl" :: _gcls :: _bdef :: n :: pts => judgeClosures n pts rhs
-  | _kind :: _gcls :: adef :: _bdef :: n :: pts =>
+  | "tw" :: gcls :: adef :: bdef :: _a2 :: _b2 :: n :: pts => judgePair "tw" gcls adef bdef n pts rhs
+  | kind :: gcls :: adef :: bdef :: n :: pts => judgePair kind gcls adef bdef n pts rhs
+  | _ => "BAD line"
+where
+  judgePair (_kind _gcls adef _bdef n : String) (pts rhs : Tok) : String :=
     -- `cc` lines carry, after the trips, `X <number of concurrent answers that differ from the
     -- sequential answer for the same input> <first differing position>`
     let conc : List String :=
@@ -260,7 +302,8 @@ def judgeLine (line : String) : String :=
       | some (a, "B" :: r) =>
         match parseSR r with
         | some (b, "T" :: nab :: nba :: "H" :: hist :: "R" :: r) =>
-          let cls := classOf a b ++ (if _kind == "cc" then "-concurrent" else "")
+          let (twSuffix, twDiffs) := if _kind == "tw" then judgeTwin a b r else ("", [])
+          let cls := twSuffix ++ classOf a b ++ (if _kind == "cc" then "-concurrent" else "")
           match parsePositions (n.toNat?.getD 0) pts with
           | none => "BAD positions"
           | some ps =>
@@ -272,7 +315,7 @@ def judgeLine (line : String) : String :=
               let expl := vs.filterMap fun v => match v.spec with | some (w, true) => some w | _ => none
               -- the reused transformers' answers must be those of transformers built fresh per call
               let diffs := (vs.filterMap fun v => v.diff) ++
-                (if hist == "1" then ["history-dependent reused-transformer-answer-differs-from-fresh-transformer"] else [])
+                (if hist == "1" then ["history-dependent reused-transformer-answer-differs-from-fresh-transformer"] else []) ++ twDiffs
               -- an unexplained violation outranks a correspondence difference, which outranks a
               -- violation that a recorded finding explains (so that a finding never hides a change)
               match unexpl, diffs, expl, wgsCheck a adef with
@@ -290,7 +333,6 @@ def judgeLine (line : String) : String :=
     | "crash" :: r => s!"SPEC crash crashed {" ".intercalate r}"
     | "timeout" :: r => s!"SPEC timeout timed-out {" ".intercalate r}"
     | _ => "BAD result"
-  | _ => "BAD line"
 
 end GeomV.C08
 
